@@ -236,18 +236,20 @@ def link_template(k: str, target: str, mark: str, wrapper: str, b: int, salt: st
     return body
 
 
-def family_templates(kinds: tuple[str, ...], wrapper: str, b: int, tail: bool = False) -> dict[str, str]:
+def family_templates(kinds: tuple[str, ...], wrapper: str, b: int, tail: bool = False,
+                     prefix: str = "") -> dict[str, str]:
     """Templates t0..t{n-1}; t_i refers to t_{(i+1) % n} through a link of kind kinds[i] that
     sits inside ``b`` nested ``wrapper`` blocks.  Rendering starts at t0 -- or, with ``tail``, at
-    an extra template "e" outside the cycle that refers to t0 by a link of kind kinds[-1]."""
+    an extra template "e" outside the cycle that refers to t0 by a link of kind kinds[-1].
+    ``prefix`` (e.g. "./") is put in front of every template name, in the links and in the keys."""
     n = len(kinds)
     out: dict[str, str] = {}
     for i, k in enumerate(kinds):
         pred = kinds[(i - 1) % n]
-        out[f"t{i}"] = link_template(k, f"t{(i + 1) % n}", f"[{i}]", wrapper, b, f"w{i}",
-                                     pred in ("extends", "extendsin"))
+        out[f"{prefix}t{i}"] = link_template(k, f"{prefix}t{(i + 1) % n}", f"[{i}]", wrapper, b, f"w{i}",
+                                             pred in ("extends", "extendsin"))
     if tail:
-        out["e"] = link_template(kinds[-1], "t0", "[e]", wrapper, b, "we", False)
+        out[f"{prefix}e"] = link_template(kinds[-1], f"{prefix}t0", "[e]", wrapper, b, "we", False)
     return out
 
 
